@@ -12,6 +12,17 @@ pub struct C12;
 const DISK_R: &str = "include \"i.td\"\ndef r_disk : DiskI;\n";
 const DISK_I: &str = "class DiskI { int a = 0; }\n";
 
+const DISK_I_CYCLIC: &str = "include \"r.td\"\nclass DiskI { int a = 0; }\n";
+
+fn buffer_text_in(doc: usize, b: usize, cyclic: bool) -> String {
+    let t = buffer_text(doc, b);
+    if doc == 1 && cyclic {
+        format!("include \"r.td\"\n{t}")
+    } else {
+        t
+    }
+}
+
 fn buffer_text(doc: usize, b: usize) -> String {
     if doc == 0 {
         // the root buffer uses the class of buffer variant b of I and the disk class
@@ -34,13 +45,13 @@ impl Property for C12 {
         "C12"
     }
     fn rule(&self) -> String {
-        "sessions over a root r.td that includes i.td, where disk texts and editor buffers differ observably (each variant of i.td declares a differently named class, each variant of r.td uses one buffer class and the disk class, so outline and 'class not found' diagnostics reveal which text was analysed). Events: open/change of r.td or i.td with one of two buffer variants (a change of an unopened document is an open), and close of either document (the disk is the truth again; checked at the next analysed step): every sequence of length <= 4 (thorough <= 5) over the 4 (document, variant) events exhaustively, each with i.td present on disk and with i.td never saved (no file on disk). Reference session model: texts = disk overlaid by the buffers of opened documents, root = last touched document. After every step the last published diagnostics of every file of the model's workspace and the documentSymbol answer of every open document in it must equal a fresh ide-level analysis over the model's texts. distinct = digest of the event sequence; non-trivial = a step at which an open included document's buffer differs from disk while the other document is (re)analysed".into()
+        "sessions over a root r.td that includes i.td, where disk texts and editor buffers differ observably (each variant of i.td declares a differently named class, each variant of r.td uses one buffer class and the disk class, so outline and 'class not found' diagnostics reveal which text was analysed). Events: open/change of r.td or i.td with one of two buffer variants (a change of an unopened document is an open), and close of either document (the disk is the truth again; checked at the next analysed step): every sequence of length <= 5 (thorough <= 6) over the 4 (document, variant) events exhaustively, each with i.td present on disk, with i.td never saved (no file on disk), and with an i.td that includes r.td back (include cycle through every edited document). Reference session model: texts = disk overlaid by the buffers of opened documents, root = last touched document. After every step the last published diagnostics of every file of the model's workspace and the documentSymbol answer of every open document in it must equal a fresh ide-level analysis over the model's texts. distinct = digest of the event sequence; non-trivial = a step at which an open included document's buffer differs from disk while the other document is (re)analysed".into()
     }
     fn assumptions(&self) -> Vec<String> {
         vec!["the disk is never modified during a session; the model takes the last touched document as root because that is what didOpen/didChange do; a close triggers no analysis, so its effect is observed at the next open/change".into()]
     }
     fn families(&self, ctx: &Ctx) -> Vec<Family> {
-        let maxlen = ctx.tier.pick(4usize, 5usize);
+        let maxlen = ctx.tier.pick(5usize, 6usize);
         vec![Family::new("all-sessions", 4, move |first, _r, emit| {
             for len in 1..=maxlen {
                 let mut idx = vec![0usize; len];
@@ -53,6 +64,11 @@ impl Property for C12 {
                     }
                     // the same session with an included document that was never saved (no file on disk)
                     if !emit(json!({"kind": "buffer-session", "events": ev, "no_disk_i": true})) {
+                        return;
+                    }
+                    // the same session where i.td includes r.td back: every edited document is then
+                    // reached again through the includes of its own workspace
+                    if !emit(json!({"kind": "buffer-session", "events": ev, "cyclic": true})) {
                         return;
                     }
                     let mut k = len;
@@ -81,12 +97,14 @@ impl Property for C12 {
         let Some(events) = case["events"].as_array() else { return Verdict::Skip("malformed-case") };
         let Some(mut s) = LspSession::start() else { return Verdict::Skip("initialize-failed") };
         let no_disk_i = case["no_disk_i"].as_bool() == Some(true);
+        let cyclic = case["cyclic"].as_bool() == Some(true);
+        let disk_i = if cyclic { DISK_I_CYCLIC } else { DISK_I };
         s.tw.write("r.td", DISK_R);
         let mut model: BTreeMap<String, String> = BTreeMap::new();
         model.insert("r.td".into(), DISK_R.into());
         if !no_disk_i {
-            s.tw.write("i.td", DISK_I);
-            model.insert("i.td".into(), DISK_I.into());
+            s.tw.write("i.td", disk_i);
+            model.insert("i.td".into(), disk_i.into());
         }
         let mut nontrivial = false;
         let mut verdict = None;
@@ -105,7 +123,7 @@ impl Property for C12 {
                             model.insert("r.td".into(), DISK_R.into());
                         }
                         (_, false) => {
-                            model.insert("i.td".into(), DISK_I.into());
+                            model.insert("i.td".into(), disk_i.into());
                         }
                         (_, true) => {
                             model.remove("i.td");
@@ -114,8 +132,8 @@ impl Property for C12 {
                 }
                 continue;
             }
-            let text = buffer_text(doc, b);
-            if doc == 0 && s.opened.contains("i.td") && model.get("i.td").map(|t| t != DISK_I).unwrap_or(false) {
+            let text = buffer_text_in(doc, b, cyclic);
+            if doc == 0 && s.opened.contains("i.td") && model.get("i.td").map(|t| t != disk_i).unwrap_or(false) {
                 nontrivial = true;
             }
             model.insert(name(doc).to_string(), text.clone());
